@@ -9,8 +9,8 @@
     *not* built into the type: the theorems prove that every operation re-establishes it.
     New containers that the code fills entry by entry (result_components[i][j] = ...) are [tab2 r c f]
     (the table of f over 0<=i<r, 0<=j<c); reads are [ment]/[vent].  [Exit] = the code prints a
-    diagnostic and calls std::exit; [OOB] = the code would index outside a std::vector (entries[0] of
-    an empty table in Matrix(std::vector<std::vector<double>>), an absent block, erase past the end). *)
+    diagnostic and calls std::exit; [OOB] = the code would index outside a std::vector (only the
+    unchecked inner index j of M[i][j], see [m_at]). *)
 From Coq Require Import ZArith List Bool Arith.
 From LP Require Import Num.
 Import ListNotations.
@@ -67,7 +67,7 @@ Definition vcross (u v : vec T) : res (vec T) :=
   else Ok (vec_of [ (vent u 1 * vent v 2 - vent u 2 * vent v 1)%num;
                     (vent u 2 * vent v 0 - vent u 0 * vent v 2)%num;
                     (vent u 0 * vent v 1 - vent u 1 * vent v 0)%num ]).
-(** Vector::Norm = sqrt(Dot(*this)) *)
+(** Vector::Norm = sqrt of Dot with itself *)
 Definition vnorm (v : vec T) : res T := rmap (nsqrt Ops) (vdot v v).
 (** Vector::operator+ , operator- *)
 Definition vadd (u v : vec T) : res (vec T) :=
@@ -94,10 +94,11 @@ Definition veq (u v : vec T) : bool :=
 
 (** ** Matrix constructors *)
 Definition mk_mat (r c : nat) (f : nat -> nat -> T) : mat T := mkMat r c (tab2 r c f).
-(** Matrix(std::vector<std::vector<double>> entries): rows(entries.size()), columns(entries[0].size()) *)
+(** Matrix(std::vector<std::vector<double>> entries):
+    rows(entries.size()), columns(entries.empty() ? 0 : entries[0].size()); exits on a ragged table *)
 Definition mat_of_entries (e : list (list T)) : res (mat T) :=
   match e with
-  | [] => OOB
+  | [] => Ok (mkMat 0 0 [])
   | r0 :: _ => if forallb (fun r => length r =? length r0) e
                then Ok (mkMat (length e) (length r0) e) else Exit
   end.
@@ -109,41 +110,32 @@ Definition mat_diag (d : list T) : mat T :=
 (** Identity_Matrix(dim) *)
 Definition identity (n : nat) : mat T := mat_diag (tab n (fun _ => one)).
 
-(** Matrix(std::vector<std::vector<Matrix>> block_matrices) *)
+(** Matrix(std::vector<std::vector<Matrix>> block_matrices).
+    valid_dimension = grid and its first row non-empty, every grid row as long as row 0, every block
+    has the columns of the block above it and the rows of the block to its left; else exit.
+    Then components = zeros(sum block_rows, sum block_columns) and every block is written at its
+    offsets, in the order of the double loop: the final value of entry (I,J) is that of the last
+    block written over it ([block_entry], a fold over the blocks in loop order), 0.0 if none. *)
 Definition get2 {A} (g : list (list A)) (r c : nat) : res A := let* row := get g r in get row c.
-Definition block_valid (g : list (list (mat T))) : res bool :=
-  fold_left (fun acc row =>
-    fold_left (fun acc col =>
-      let* ok := acc in
-      let* b := get2 g row col in
-      let* ok1 := (if row =? 0 then Ok true
-                   else let* a := get2 g (row - 1) col in Ok (mcols b =? mcols a)) in
-      let* ok2 := (if col =? 0 then Ok true
-                   else let* l := get2 g row (col - 1) in Ok (mrows b =? mrows l)) in
-      Ok (ok && ok1 && ok2))
-      (seq 0 (length (nth row g []))) acc)
-    (seq 0 (length g)) (Ok true).
-Fixpoint rall {A} (l : list (res A)) : res (list A) :=
-  match l with
-  | [] => Ok []
-  | x :: r => let* a := x in let* t := rall r in Ok (a :: t)
-  end.
+Definition blk (g : list (list (mat T))) (row col : nat) : mat T :=
+  nth col (nth row g []) (mkMat 0 0 []).
+Definition block_valid (g : list (list (mat T))) : bool :=
+  negb (length g =? 0) && negb (length (nth 0 g []) =? 0) &&
+  forallb (fun row : list (mat T) => length row =? length (nth 0 g [])) g &&
+  forallb (fun row =>
+    forallb (fun col =>
+      ((row =? 0) || (mcols (blk g row col) =? mcols (blk g (row - 1) col))) &&
+      ((col =? 0) || (mrows (blk g row col) =? mrows (blk g row (col - 1)))))
+      (seq 0 (length (nth row g [])))) (seq 0 (length g)).
+Definition block_rows (g : list (list (mat T))) : list nat :=
+  map (fun row => mrows (blk g row 0)) (seq 0 (length g)).
+Definition block_cols (g : list (list (mat T))) : list nat :=
+  map (fun col => mcols (blk g 0 col)) (seq 0 (length (nth 0 g []))).
 (** all blocks with the offsets at which the assignment loop writes them, in the order of the loop *)
-Definition block_placed (g : list (list (mat T))) (brows bcols : list nat)
-  : res (list (nat * nat * mat T)) :=
-  rall (flat_map (fun row =>
-          map (fun col =>
-                 let* b := get2 g row col in
-                 if length bcols <? col then OOB    (* block_columns.begin() + col past the end *)
-                 else
-                   let io := sum_nat (firstn row brows) in
-                   let jo := sum_nat (firstn col bcols) in
-                   (* components[io+i][jo+j] must exist for every entry of the block *)
-                   if (0 <? mrows b) && (0 <? mcols b) &&
-                      ((sum_nat brows <? io + mrows b)%nat || (sum_nat bcols <? jo + mcols b)%nat)
-                   then OOB else Ok (io, jo, b))
-              (seq 0 (length (nth row g []))))
-          (seq 0 (length g))).
+Definition block_placed (g : list (list (mat T))) : list (nat * nat * mat T) :=
+  flat_map (fun row =>
+    map (fun col => (sum_nat (firstn row (block_rows g)), sum_nat (firstn col (block_cols g)), blk g row col))
+        (seq 0 (length (nth row g [])))) (seq 0 (length g)).
 Definition block_entry (placed : list (nat * nat * mat T)) (I J : nat) : T :=
   fold_left (fun acc p =>
                match p with
@@ -152,14 +144,8 @@ Definition block_entry (placed : list (nat * nat * mat T)) (I J : nat) : T :=
                    then ment b (I - io) (J - jo) else acc
                end) placed zero.
 Definition mat_block (g : list (list (mat T))) : res (mat T) :=
-  let* valid := block_valid g in
-  if negb valid then Exit
-  else
-    let* brows := rall (map (fun row => let* b := get2 g row 0 in Ok (mrows b)) (seq 0 (length g))) in
-    let* row0 := get g 0 in
-    let bcols := map (fun b : mat T => mcols b) row0 in
-    let* placed := block_placed g brows bcols in
-    Ok (mk_mat (sum_nat brows) (sum_nat bcols) (block_entry placed)).
+  if negb (block_valid g) then Exit
+  else Ok (mk_mat (sum_nat (block_rows g)) (sum_nat (block_cols g)) (block_entry (block_placed g))).
 
 (** ** Size, components *)
 (** M[i][j] through Matrix::operator[] (tests i >= rows; the inner std::vector is unchecked) *)
